@@ -1,6 +1,1136 @@
-//! C16 — not implemented yet.
-use crate::ctx::Ctx;
+//! C16 — metrics never lose concurrent updates and never influence results.
+//!
+//! Requests (see lean/IbModel/Driver/D16.lean for the grammar):
+//!   `METRICS init=… th=… sched=…`  one replayable interleaving, at lock granularity, of real OS threads
+//!        calling the REAL `MetricsCollector` methods on one shared collector. The interleaving is forced by
+//!        a cooperative scheduler installed as the `verif_hooks::yield_point` callback (there is a yield
+//!        point immediately before every `.lock()` in src/metrics.rs): every managed thread parks at each
+//!        yield point until the scheduler grants it, so exactly one thread runs between two grants and a
+//!        schedule (list of thread ids) determines the execution. All complete schedules of a program are
+//!        ENUMERATED by stateless depth-first search (re-execution with a longer forced prefix).
+//!        Answer: final snapshot, elapsed present?, to_json keys, critical sections per call, complete?.
+//!   `STRESS init=… threads=… per=… amounts=…`  free-running threads (no scheduler), final counter.
+//!   `MRUN coll=0|1 pre=… runs=…`  real pipelines run through `Runner::run_collect` with / without a collector.
+//!
+//! Oracles (independent of the Lean model):
+//!   * increment-only programs: final counter = initial + Σ increments            (`lost-update`)
+//!   * any program: the final snapshot is one the REAL code produces when the same calls are made one
+//!     after the other in some order that respects each thread's program order   (`non-serializable-outcome`)
+//!   * every name registered / set / incremented is a key of `to_json()`         (`json-missing-registered-key`)
+//!   * free-running stress: final = init + Σ                                    (`lost-update-free-running`)
+//!   * result with a collector attached == result without                        (`collector-changed-result`)
+//!   * after a successful run `elapsed()` is `Some`                              (`elapsed-missing-after-success`)
+
+use crate::ctx::{Ctx, guarded};
+use ironbeam::metrics::{CounterMetric, GaugeMetric, Metric, MetricsCollector};
+use ironbeam::{ExecMode, NodeId, Pipeline, Runner, Sum, from_vec};
+use std::cell::{Cell, RefCell};
+use std::collections::{BTreeMap, BTreeSet, HashSet};
+use std::sync::{Arc, Mutex, Once};
+
+// ---------------------------------------------------------------------------------------------
+// programs
+// ---------------------------------------------------------------------------------------------
+
+#[derive(Clone, Copy, Debug, PartialEq, Eq, Hash)]
+enum Op {
+    Inc(&'static str, u64),
+    Set(&'static str, u64),
+    RegC(&'static str, u64),
+    RegG(&'static str, u64),
+    St,
+    En,
+    El,
+    Js,
+    Sn,
+}
+
+#[derive(Clone, Copy, Debug, PartialEq, Eq, Hash)]
+enum Val {
+    C(u64),
+    G(u64),
+}
+
+type Init = Vec<(&'static str, Val)>;
+type Prog = Vec<Vec<Op>>;
+
+fn enc_op(o: &Op) -> String {
+    match o {
+        Op::Inc(k, n) => format!("i:{k}:{n}"),
+        Op::Set(k, n) => format!("s:{k}:{n}"),
+        Op::RegC(k, n) => format!("rc:{k}:{n}"),
+        Op::RegG(k, n) => format!("rg:{k}:{n}"),
+        Op::St => "st".into(),
+        Op::En => "en".into(),
+        Op::El => "el".into(),
+        Op::Js => "js".into(),
+        Op::Sn => "sn".into(),
+    }
+}
+fn enc_ops(ops: &[Op]) -> String {
+    if ops.is_empty() { "-".into() } else { ops.iter().map(enc_op).collect::<Vec<_>>().join(",") }
+}
+fn enc_prog(p: &Prog) -> String {
+    p.iter().map(|t| enc_ops(t)).collect::<Vec<_>>().join("/")
+}
+fn enc_init(i: &Init) -> String {
+    if i.is_empty() {
+        "-".into()
+    } else {
+        i.iter()
+            .map(|(k, v)| match v { Val::C(n) => format!("{k}:c{n}"), Val::G(n) => format!("{k}:g{n}") })
+            .collect::<Vec<_>>()
+            .join(",")
+    }
+}
+fn enc_sched(s: &[usize]) -> String {
+    if s.is_empty() { "-".into() } else { s.iter().map(|x| x.to_string()).collect::<Vec<_>>().join(",") }
+}
+
+fn boxed(k: &str, v: Val) -> Box<dyn Metric> {
+    match v {
+        Val::C(n) => Box::new(CounterMetric::with_value(k, n)),
+        Val::G(n) => Box::new(GaugeMetric::new(k, n as f64)),
+    }
+}
+
+fn mk_collector(init: &Init) -> MetricsCollector {
+    let mut c = MetricsCollector::new();
+    // register_all is a loop over register
+    c.register_all(init.iter().map(|(k, v)| boxed(k, *v)).collect());
+    c
+}
+
+fn apply(c: &MetricsCollector, op: &Op) {
+    match op {
+        Op::Inc(k, n) => c.increment_counter(k, *n),
+        Op::Set(k, n) => c.set_counter(k, *n),
+        Op::RegC(k, n) => {
+            let mut h = c.clone(); // clones share the inner state
+            h.register(boxed(k, Val::C(*n)));
+        }
+        Op::RegG(k, n) => {
+            let mut h = c.clone();
+            h.register(boxed(k, Val::G(*n)));
+        }
+        Op::St => c.record_start(),
+        Op::En => c.record_end(),
+        Op::El => { let _ = c.elapsed(); }
+        Op::Js => { let _ = c.to_json(); }
+        Op::Sn => { let _ = c.snapshot(); }
+    }
+}
+
+fn join_or(v: Vec<String>, sep: &str) -> String {
+    if v.is_empty() { "-".into() } else { v.join(sep) }
+}
+
+fn canon_snapshot(c: &MetricsCollector) -> String {
+    let snap = c.snapshot();
+    let mut rows: Vec<String> = snap
+        .iter()
+        .map(|(k, v)| {
+            if let Some(n) = v.as_u64() {
+                format!("{k}:c{n}")
+            } else if let Some(f) = v.as_f64() {
+                format!("{k}:g{}", f as u64)
+            } else {
+                format!("{k}:?")
+            }
+        })
+        .collect();
+    rows.sort();
+    join_or(rows, ",")
+}
+fn json_keys(c: &MetricsCollector) -> Vec<String> {
+    let j = c.to_json();
+    let mut ks: Vec<String> = j.as_object().map(|m| m.keys().cloned().collect()).unwrap_or_default();
+    ks.sort();
+    ks
+}
+
+// ---------------------------------------------------------------------------------------------
+// the cooperative scheduler
+// ---------------------------------------------------------------------------------------------
+
+const RUNNING: u8 = 0;
+const PARKED: u8 = 1;
+const FINISHED: u8 = 2;
+const NO_GRANT: usize = usize::MAX;
+
+/// Scheduler state shared by the managed threads of one execution. Hand-offs are by atomics with a
+/// short spin and then micro-sleeps (a critical section lasts microseconds; a futex round trip per
+/// hand-off was the dominating cost of the enumeration).
+struct Coop {
+    st: Vec<std::sync::atomic::AtomicU8>,
+    grant: std::sync::atomic::AtomicUsize,
+}
+
+fn wait_until(mut cond: impl FnMut() -> bool) {
+    let mut n = 0u32;
+    while !cond() {
+        n += 1;
+        if n < 4000 {
+            std::hint::spin_loop();
+        } else if n < 4200 {
+            std::thread::yield_now();
+        } else {
+            std::thread::sleep(std::time::Duration::from_micros(50));
+        }
+    }
+}
+
+thread_local! {
+    static ME: RefCell<Option<(usize, Arc<Coop>)>> = const { RefCell::new(None) };
+    static SECS: Cell<u32> = const { Cell::new(0) };
+}
+
+fn install_callback() {
+    static ONCE: Once = Once::new();
+    ONCE.call_once(|| {
+        ironbeam::verif_hooks::set_yield_callback(Some(Arc::new(|site: &'static str| {
+            if !site.starts_with("metrics:") {
+                return;
+            }
+            let me = ME.with(|m| m.borrow().clone());
+            if let Some((tid, coop)) = me {
+                use std::sync::atomic::Ordering::{Acquire, Release};
+                coop.st[tid].store(PARKED, Release);
+                wait_until(|| coop.grant.load(Acquire) == tid);
+                coop.grant.store(NO_GRANT, Release);
+                SECS.with(|s| s.set(s.get() + 1));
+            }
+        })));
+    });
+}
+
+type Job = Box<dyn FnOnce() + Send>;
+static POOL: Mutex<Vec<std::sync::mpsc::Sender<Job>>> = Mutex::new(Vec::new());
+
+/// persistent worker threads (one per thread id) so that an execution does not pay for thread creation
+fn pool_submit(worker: usize, job: Job) {
+    let mut p = POOL.lock().unwrap();
+    while p.len() <= worker {
+        let (tx, rx) = std::sync::mpsc::channel::<Job>();
+        std::thread::spawn(move || {
+            while let Ok(j) = rx.recv() {
+                j();
+            }
+        });
+        p.push(tx);
+    }
+    p[worker].send(job).expect("worker alive");
+}
+
+struct FinishGuard(usize, Arc<Coop>);
+impl Drop for FinishGuard {
+    fn drop(&mut self) {
+        self.1.st[self.0].store(FINISHED, std::sync::atomic::Ordering::Release);
+    }
+}
+
+enum Policy<'a> {
+    /// forced prefix (entries naming a finished / unknown thread are skipped), then lowest enabled thread
+    Prefix(&'a [usize]),
+    /// a uniformly random enabled thread at every step
+    Random(&'a mut crate::ctx::Rng),
+}
+
+struct Exec {
+    taken: Vec<usize>,
+    enabled: Vec<Vec<usize>>,
+    complete: bool,
+    secs: Vec<Vec<u32>>,
+    snap: String,
+    keys: Vec<String>,
+    el: bool,
+    panicked: bool,
+}
+
+impl Exec {
+    fn answer(&self) -> String {
+        if self.panicked {
+            return "PANIC".into();
+        }
+        let secs = self
+            .secs
+            .iter()
+            .map(|t| join_or(t.iter().map(|x| x.to_string()).collect(), "."))
+            .collect::<Vec<_>>()
+            .join("/");
+        format!(
+            "snap={} el={} keys={} secs={} complete={}",
+            self.snap,
+            if self.el { "T" } else { "F" },
+            join_or(self.keys.clone(), ","),
+            secs,
+            if self.complete { "T" } else { "F" }
+        )
+    }
+}
+
+/// Run `prog` on a fresh collector with real threads under the cooperative scheduler.
+fn execute(init: &Init, prog: &Prog, mut policy: Policy) -> Exec {
+    install_callback();
+    let n = prog.len();
+    let coll = mk_collector(init);
+    use std::sync::atomic::Ordering::{Acquire, Release};
+    let coop = Arc::new(Coop {
+        st: (0..n).map(|_| std::sync::atomic::AtomicU8::new(RUNNING)).collect(),
+        grant: std::sync::atomic::AtomicUsize::new(NO_GRANT),
+    });
+    let (rtx, rrx) = std::sync::mpsc::channel::<(usize, Option<Vec<u32>>)>();
+    for (tid, ops) in prog.iter().enumerate() {
+        let ops = ops.clone();
+        let c = coll.clone();
+        let coop2 = coop.clone();
+        let rtx = rtx.clone();
+        pool_submit(tid, Box::new(move || {
+            let r = std::panic::catch_unwind(std::panic::AssertUnwindSafe(|| {
+                let _fin = FinishGuard(tid, coop2.clone());
+                ME.with(|m| *m.borrow_mut() = Some((tid, coop2.clone())));
+                let mut secs = Vec::with_capacity(ops.len());
+                for op in &ops {
+                    let before = SECS.with(Cell::get);
+                    apply(&c, op);
+                    secs.push(SECS.with(Cell::get) - before);
+                }
+                secs
+            }));
+            ME.with(|m| *m.borrow_mut() = None);
+            let _ = rtx.send((tid, r.ok()));
+        }));
+    }
+    let mut taken = vec![];
+    let mut enabled_log = vec![];
+    let mut complete = false;
+    let mut pos = 0usize; // position in a forced prefix
+    let mut prefix_done = false;
+    loop {
+        // wait until no managed thread is running
+        wait_until(|| coop.st.iter().all(|s| s.load(Acquire) != RUNNING));
+        let enabled: Vec<usize> = (0..n).filter(|i| coop.st[*i].load(Acquire) == PARKED).collect();
+        let choice = match &mut policy {
+            Policy::Prefix(p) => {
+                let mut ch = None;
+                while pos < p.len() {
+                    let t = p[pos];
+                    pos += 1;
+                    if enabled.contains(&t) {
+                        ch = Some(t);
+                        break;
+                    }
+                }
+                if ch.is_none() && !prefix_done {
+                    prefix_done = true;
+                    complete = enabled.is_empty();
+                }
+                ch.or_else(|| enabled.first().copied())
+            }
+            Policy::Random(r) => {
+                if enabled.is_empty() {
+                    complete = true;
+                    None
+                } else {
+                    Some(enabled[r.below(enabled.len())])
+                }
+            }
+        };
+        match choice {
+            None => break,
+            Some(t) => {
+                taken.push(t);
+                enabled_log.push(enabled);
+                coop.st[t].store(RUNNING, Release);
+                coop.grant.store(t, Release);
+            }
+        }
+    }
+    if let Policy::Prefix(p) = &policy {
+        if !prefix_done {
+            // the whole prefix was consumed exactly when the last thread finished
+            let _ = p;
+            complete = true;
+        }
+    }
+    let mut secs = vec![vec![]; n];
+    let mut panicked = false;
+    for _ in 0..n {
+        match rrx.recv() {
+            Ok((tid, Some(s))) => secs[tid] = s,
+            _ => panicked = true,
+        }
+    }
+    let obs = guarded(|| (canon_snapshot(&coll), json_keys(&coll), coll.elapsed().is_some()));
+    match obs {
+        Ok((snap, keys, el)) => Exec { taken, enabled: enabled_log, complete, secs, snap, keys, el, panicked },
+        Err(_) => Exec { taken, enabled: enabled_log, complete, secs, snap: String::new(), keys: vec![], el: false, panicked: true },
+    }
+}
+
+type State = BTreeMap<String, Val>;
+
+fn state_of(c: &MetricsCollector) -> State {
+    c.snapshot()
+        .into_iter()
+        .map(|(k, v)| {
+            let val = if let Some(n) = v.as_u64() { Val::C(n) } else { Val::G(v.as_f64().unwrap_or(0.0) as u64) };
+            (k, val)
+        })
+        .collect()
+}
+fn collector_of(st: &State) -> MetricsCollector {
+    let mut c = MetricsCollector::new();
+    for (k, v) in st {
+        c.register(boxed(k, *v));
+    }
+    c
+}
+
+/// All final snapshots the REAL code produces when the calls are made one after the other (single thread,
+/// no scheduler) in every order that respects each thread's program order. Computed level by level over the
+/// vectors of per-thread positions (the metric map is the whole state that matters for a snapshot; it is
+/// rebuilt with the real `register` between calls), so the cost is polynomial, not one run per order.
+fn serial_outcomes(init: &Init, prog: &Prog) -> HashSet<String> {
+    use std::collections::HashMap;
+    let n = prog.len();
+    let total: usize = prog.iter().map(Vec::len).sum();
+    let mut cur: HashMap<Vec<usize>, HashSet<State>> = HashMap::new();
+    cur.entry(vec![0; n]).or_default().insert(state_of(&mk_collector(init)));
+    for _ in 0..total {
+        let mut next: HashMap<Vec<usize>, HashSet<State>> = HashMap::new();
+        for (pos, states) in &cur {
+            for t in 0..n {
+                if pos[t] < prog[t].len() {
+                    let mut np = pos.clone();
+                    np[t] += 1;
+                    let slot = next.entry(np).or_default();
+                    for st in states {
+                        let c = collector_of(st);
+                        apply(&c, &prog[t][pos[t]]);
+                        slot.insert(state_of(&c));
+                    }
+                }
+            }
+        }
+        cur = next;
+    }
+    cur.values()
+        .flat_map(|states| states.iter())
+        .map(|st| {
+            join_or(st.iter().map(|(k, v)| match v { Val::C(n) => format!("{k}:c{n}"), Val::G(n) => format!("{k}:g{n}") }).collect(), ",")
+        })
+        .collect()
+}
+
+fn written_names(init: &Init, prog: &Prog) -> BTreeSet<&'static str> {
+    let mut s = BTreeSet::new();
+    for (k, _) in init {
+        s.insert(*k);
+    }
+    for t in prog {
+        for op in t {
+            match op {
+                Op::Inc(k, _) | Op::Set(k, _) | Op::RegC(k, _) | Op::RegG(k, _) => { s.insert(*k); }
+                _ => {}
+            }
+        }
+    }
+    s
+}
+
+/// `Some(expected final counters)` when the program consists of increments only and every initial metric
+/// is a counter: final = initial + Σ increments, per name.
+fn inc_only_expectation(init: &Init, prog: &Prog) -> Option<BTreeMap<&'static str, u64>> {
+    let mut m = BTreeMap::new();
+    for (k, v) in init {
+        match v {
+            Val::C(n) => { m.insert(*k, *n); }
+            Val::G(_) => return None,
+        }
+    }
+    let mut any = false;
+    for t in prog {
+        for op in t {
+            match op {
+                Op::Inc(k, n) => { *m.entry(*k).or_insert(0) += *n; any = true; }
+                Op::St | Op::En | Op::El | Op::Js | Op::Sn => {}
+                _ => return None,
+            }
+        }
+    }
+    if any { Some(m) } else { None }
+}
+
+struct ProgOracle {
+    serial: HashSet<String>,
+    inc_only: Option<String>,
+    names: BTreeSet<&'static str>,
+}
+fn prog_oracle(init: &Init, prog: &Prog) -> ProgOracle {
+    let inc_only = inc_only_expectation(init, prog)
+        .map(|m| join_or(m.iter().map(|(k, n)| format!("{k}:c{n}")).collect(), ","));
+    ProgOracle { serial: serial_outcomes(init, prog), inc_only, names: written_names(init, prog) }
+}
+
+fn emit(cx: &mut Ctx, init: &Init, prog: &Prog, sched: &[usize], ex: &Exec, orc: &ProgOracle, what: &str) {
+    let nt = prog.iter().filter(|t| !t.is_empty()).count() >= 2;
+    let req = format!("METRICS init={} th={} sched={}", enc_init(init), enc_prog(prog), enc_sched(sched));
+    let i = cx.case(req, ex.answer(), nt);
+    cx.count(&format!("metrics:{what}"));
+    let max_secs = ex.secs.iter().flatten().copied().max().unwrap_or(0);
+    cx.count(&format!("metrics:max-sections-per-call={max_secs}"));
+    if ex.panicked {
+        cx.oracle_fail(i, "collector-panicked", "a collector call panicked".into());
+        return;
+    }
+    if let Some(want) = &orc.inc_only {
+        if &ex.snap != want {
+            cx.oracle_fail(i, "lost-update", format!("increment-only program: final {} but initial + sum of increments = {}", ex.snap, want));
+            return;
+        }
+    }
+    if !orc.serial.contains(&ex.snap) {
+        cx.oracle_fail(
+            i,
+            "non-serializable-outcome",
+            format!("final snapshot {} is not produced by any one-call-at-a-time order (serial outcomes: {:?})", ex.snap, {
+                let mut v: Vec<_> = orc.serial.iter().cloned().collect();
+                v.sort();
+                v.truncate(6);
+                v
+            }),
+        );
+        return;
+    }
+    for k in &orc.names {
+        if !ex.keys.iter().any(|x| x == k) {
+            cx.oracle_fail(i, "json-missing-registered-key", format!("{k} was registered but to_json keys = {:?}", ex.keys));
+            return;
+        }
+    }
+}
+
+/// Enumerate every complete schedule of `prog` on the real code (stateless DFS); returns the number of
+/// executions and whether the enumeration was cut off by `cap`.
+fn explore(cx: &mut Ctx, init: &Init, prog: &Prog, cap: usize, what: &str) -> (usize, bool) {
+    let orc = prog_oracle(init, prog);
+    let mut prefix: Vec<usize> = vec![];
+    let mut runs = 0usize;
+    loop {
+        let mut ex = execute(init, prog, Policy::Prefix(&prefix));
+        runs += 1;
+        // the request carries the whole schedule that was taken (forced prefix + lowest-thread-first tail)
+        ex.complete = true;
+        let sched = ex.taken.clone();
+        emit(cx, init, prog, &sched, &ex, &orc, what);
+        // backtrack: deepest position with an untried (larger) enabled thread
+        let mut next = None;
+        for j in (0..ex.taken.len()).rev() {
+            if let Some(t) = ex.enabled[j].iter().copied().filter(|t| *t > ex.taken[j]).min() {
+                let mut p = ex.taken[..j].to_vec();
+                p.push(t);
+                next = Some(p);
+                break;
+            }
+        }
+        match next {
+            None => return (runs, false),
+            Some(p) => prefix = p,
+        }
+        if runs >= cap {
+            cx.count("metrics:enumeration-truncated-programs");
+            return (runs, true);
+        }
+    }
+}
+
+fn all_progs(alpha: &[Op], shape: &[usize]) -> Vec<Prog> {
+    let mut out: Vec<Prog> = vec![vec![]];
+    for &len in shape {
+        let mut seqs: Vec<Vec<Op>> = vec![vec![]];
+        for _ in 0..len {
+            let mut nx = vec![];
+            for s in &seqs {
+                for o in alpha {
+                    let mut t = s.clone();
+                    t.push(*o);
+                    nx.push(t);
+                }
+            }
+            seqs = nx;
+        }
+        let mut nx = vec![];
+        for p in &out {
+            for s in &seqs {
+                let mut q = p.clone();
+                q.push(s.clone());
+                nx.push(q);
+            }
+        }
+        out = nx;
+    }
+    out
+}
+
+/// increments whose amounts are distinct powers of two: the final value says exactly which were reflected
+fn binary_weight_prog(threads: usize, per: usize) -> Prog {
+    (0..threads).map(|t| (0..per).map(|j| Op::Inc("a", 1u64 << (t * per + j))).collect()).collect()
+}
+
+// ---------------------------------------------------------------------------------------------
+// free-running stress
+// ---------------------------------------------------------------------------------------------
+
+fn stress(cx: &mut Ctx, init: Option<u64>, threads: usize, per: usize, amounts: &[u64], jitter: bool) {
+    let coll = MetricsCollector::new();
+    if let Some(n) = init {
+        coll.set_counter("ctr", n);
+    }
+    let barrier = Arc::new(std::sync::Barrier::new(threads));
+    let hs: Vec<_> = (0..threads)
+        .map(|t| {
+            let c = coll.clone();
+            let b = barrier.clone();
+            let amt = amounts[t % amounts.len()];
+            std::thread::spawn(move || {
+                b.wait();
+                for j in 0..per {
+                    c.increment_counter("ctr", amt);
+                    if jitter && j % 64 == 0 {
+                        std::thread::yield_now();
+                    }
+                }
+            })
+        })
+        .collect();
+    let mut panicked = false;
+    for h in hs {
+        panicked |= h.join().is_err();
+    }
+    let want: u64 = init.unwrap_or(0) + (0..threads).map(|t| amounts[t % amounts.len()] * per as u64).sum::<u64>();
+    let got = guarded(|| coll.snapshot().get("ctr").and_then(|v| v.as_u64()));
+    let real = match (&got, panicked) {
+        (Ok(Some(n)), false) => format!("final={n} complete=T"),
+        _ => "PANIC".into(),
+    };
+    let req = format!(
+        "STRESS init={} threads={threads} per={per} amounts={}",
+        init.map(|n| n.to_string()).unwrap_or_else(|| "none".into()),
+        amounts.iter().map(|x| x.to_string()).collect::<Vec<_>>().join(",")
+    );
+    let i = cx.case(req, real, threads >= 2);
+    cx.count("stress:runs");
+    cx.count_n("stress:increments", (threads * per) as u64);
+    if got != Ok(Some(want)) {
+        cx.oracle_fail(i, "lost-update-free-running", format!("{threads} threads x {per} increments: final {got:?}, initial + sum = {want}"));
+    }
+}
+
+// ---------------------------------------------------------------------------------------------
+// pipelines with / without a collector
+// ---------------------------------------------------------------------------------------------
+
+#[derive(Clone, Copy, Debug)]
+enum Mode {
+    Seq,
+    Par(usize),
+}
+
+fn fnv(s: &str) -> u64 {
+    let mut h: u64 = 0xcbf2_9ce4_8422_2325;
+    for b in s.bytes() {
+        h ^= u64::from(b);
+        h = h.wrapping_mul(0x0100_0000_01b3);
+    }
+    h
+}
+fn token<T: std::fmt::Debug + Ord>(mut v: Vec<T>) -> String {
+    v.sort();
+    format!("n{}h{:016x}", v.len(), fnv(&format!("{v:?}")))
+}
+/// for pipelines without a barrier the engines preserve the input order: compare the sequence itself
+fn token_ordered<T: std::fmt::Debug>(v: Vec<T>) -> String {
+    format!("o{}h{:016x}", v.len(), fnv(&format!("{v:?}")))
+}
+const SLEEP_MS: u64 = 4;
+
+/// Build pipeline number `which` on `p` over `data` and collect it; canonical token of the result.
+fn run_pipeline(p: &Pipeline, which: usize, data: &[i64], mode: Mode) -> anyhow::Result<String> {
+    macro_rules! collect {
+        ($c:expr) => {
+            match mode {
+                Mode::Seq => $c.collect_seq(),
+                Mode::Par(parts) => $c.collect_par(None, Some(parts)),
+            }
+        };
+    }
+    let src = from_vec(p, data.to_vec());
+    Ok(match which {
+        0 => token_ordered(collect!(src.map(|x: &i64| x * 2).filter(|x: &i64| x % 3 != 0))?),
+        6 => token_ordered(collect!(from_vec(p, vec![data.len() as i64]).map(|x: &i64| {
+            std::thread::sleep(std::time::Duration::from_millis(SLEEP_MS));
+            x + 1
+        }))?),
+        1 => {
+            let g = collect!(src.key_by(|x: &i64| x.rem_euclid(5)).group_by_key())?;
+            token(g.into_iter().map(|(k, mut vs)| { vs.sort(); (k, vs) }).collect())
+        }
+        2 => token(collect!(src.key_by(|x: &i64| x.rem_euclid(4)).map_values(|v: &i64| v + 1).combine_values(Sum::<i64>::new()))?),
+        3 => {
+            let left = src.key_by(|x: &i64| x.rem_euclid(7));
+            let right = from_vec(p, data.iter().map(|x| x * 10).collect::<Vec<i64>>()).key_by(|x: &i64| (x / 10).rem_euclid(3));
+            token(collect!(left.join_inner(&right))?)
+        }
+        4 => token(collect!(src.combine_globally(Sum::<i64>::new(), None))?),
+        _ => token(collect!(src.flat_map(|x: &i64| vec![*x, x + 1]).distinct())?),
+    })
+}
+
+/// One `run_collect` that fails while planning (`pe`) or while executing (`ee`).
+fn run_failing(p: &Pipeline, kind: &str) -> String {
+    let r = Runner { mode: ExecMode::Sequential, ..Default::default() };
+    match kind {
+        "pe" => match r.run_collect::<i64>(p, NodeId::new(987_654_321)) {
+            Err(_) => "pe".into(),
+            Ok(_) => "ok:unexpected".into(),
+        },
+        _ => {
+            let c = from_vec(p, vec![1i64, 2, 3]);
+            match r.run_collect::<String>(p, c.node_id()) {
+                Err(_) => "ee".into(),
+                Ok(_) => "ok:unexpected".into(),
+            }
+        }
+    }
+}
+
+fn mrun(cx: &mut Ctx, which: usize, data: &[i64], mode: Mode, pre: &[Op], runs: &[&str], hammer: bool) {
+    // reference: the same pipeline on a pipeline WITHOUT a collector
+    let base = guarded(|| run_pipeline(&Pipeline::default(), which, data, mode));
+    let want = match &base {
+        Ok(Ok(t)) => t.clone(),
+        Ok(Err(_)) => "ERR".into(),
+        Err(_) => "PANIC".into(),
+    };
+    let run_tokens: Vec<String> = runs.iter().map(|k| if *k == "ok" { format!("ok:{want}") } else { format!("{k}:x") }).collect();
+    for with in [false, true] {
+        let p = Pipeline::default();
+        let coll = MetricsCollector::new();
+        for op in pre {
+            apply(&coll, op);
+        }
+        if with {
+            p.set_metrics(coll.clone());
+        }
+        let stop = Arc::new(std::sync::atomic::AtomicBool::new(false));
+        let hammer_thread = if with && hammer {
+            let c = coll.clone();
+            let s = stop.clone();
+            Some(std::thread::spawn(move || {
+                let mut n = 0u64;
+                while !s.load(std::sync::atomic::Ordering::Relaxed) {
+                    c.increment_counter("hammer", 1);
+                    let _ = c.snapshot();
+                    n += 1;
+                }
+                n
+            }))
+        } else {
+            None
+        };
+        let mut res = vec![];
+        let mut last_ok = false;
+        let mut mismatch = None;
+        for k in runs {
+            if *k == "ok" {
+                let r = guarded(|| run_pipeline(&p, which, data, mode));
+                let t = match &r {
+                    Ok(Ok(t)) => t.clone(),
+                    Ok(Err(_)) => "ERR".into(),
+                    Err(_) => "PANIC".into(),
+                };
+                if t != want {
+                    mismatch = Some(t.clone());
+                }
+                res.push(format!("ok:{t}"));
+                last_ok = matches!(r, Ok(Ok(_)));
+            } else {
+                res.push(guarded(|| run_failing(&p, k)).unwrap_or_else(|_| "PANIC".into()));
+                last_ok = false;
+            }
+        }
+        stop.store(true, std::sync::atomic::Ordering::Relaxed);
+        let hammered = hammer_thread.map(|h| h.join().unwrap_or(0));
+        let got = p.get_metrics();
+        let mut real = format!("res={} coll={}", res.join(","), if got.is_some() { "T" } else { "F" });
+        let mut el = false;
+        let mut keys = vec![];
+        let mut elapsed_before = None;
+        if let Some(c) = &got {
+            elapsed_before = c.elapsed();
+            el = elapsed_before.is_some();
+            keys = json_keys(c);
+            let probe = c.clone();
+            // is a start stamp present? observable as: after one more record_end an elapsed time exists
+            let snap_before = canon_snapshot(c);
+            let keys_s = join_or(keys.iter().filter(|k| *k != "hammer").cloned().collect(), ",");
+            let snap_s = join_or(snap_before.split(',').filter(|r| !r.starts_with("hammer:") && *r != "-").map(String::from).collect(), ",");
+            probe.record_end();
+            let start_set = probe.elapsed().is_some();
+            real.push_str(&format!(
+                " el={} start={} keys={} snap={}",
+                if el { "T" } else { "F" },
+                if start_set { "T" } else { "F" },
+                keys_s,
+                snap_s
+            ));
+        }
+        let req = format!("MRUN coll={} pre={} runs={}", u8::from(with), enc_ops(pre), run_tokens.join(","));
+        let i = cx.case(req, real, with && !data.is_empty());
+        cx.count(&format!("mrun:pipeline{which}:{}", match mode { Mode::Seq => "seq", Mode::Par(_) => "par" }));
+        cx.count(if with { "mrun:with-collector" } else { "mrun:without-collector" });
+        if let Some(n) = hammered {
+            cx.count("mrun:hammered-during-run");
+            if let Some(c) = &got {
+                let h = c.snapshot().get("hammer").and_then(|v| v.as_u64());
+                if n > 0 && h != Some(n) {
+                    cx.oracle_fail(i, "lost-update-free-running", format!("hammer thread made {n} increments, counter shows {h:?}"));
+                }
+            }
+        }
+        if let Some(t) = mismatch {
+            cx.oracle_fail(i, "collector-changed-result", format!("pipeline {which} {mode:?}: without collector {want}, {} {t}", if with { "with collector" } else { "second pipeline without collector" }));
+        }
+        if with && last_ok && !el {
+            cx.oracle_fail(i, "elapsed-missing-after-success", "run_collect returned Ok but elapsed() is None".into());
+        }
+        if with && last_ok && which == 6 {
+            // the closure sleeps SLEEP_MS: stamps taken around the execution must be at least that far apart
+            if let Some(d) = elapsed_before {
+                if d < std::time::Duration::from_millis(SLEEP_MS) {
+                    cx.oracle_fail(i, "elapsed-does-not-cover-run", format!("the run slept {SLEEP_MS} ms but elapsed() = {d:?}"));
+                }
+            }
+        }
+        if with {
+            for k in written_names(&vec![], &vec![pre.to_vec()]) {
+                if !keys.iter().any(|x| x == k) {
+                    cx.oracle_fail(i, "json-missing-registered-key", format!("{k} registered before the run, to_json keys = {keys:?}"));
+                }
+            }
+        }
+    }
+}
+
+struct Panicky;
+impl Metric for Panicky {
+    fn name(&self) -> &str { "boom" }
+    fn value(&self) -> serde_json::Value { panic!("user metric panicked in value()") }
+    fn as_any(&self) -> &dyn std::any::Any { self }
+}
+
+/// `MPOISON how=… want=<token>`: a panic inside a critical section of the collector (u64 overflow of
+/// `count + value` with overflow checks on; a user metric whose `value()` panics during `snapshot()`),
+/// caught by the caller; afterwards the collector is attached to a pipeline and the pipeline is run.
+fn poison_case(cx: &mut Ctx, how: &str) {
+    let data: Vec<i64> = (0..40).collect();
+    let tok = |r: Result<anyhow::Result<String>, String>| match r {
+        Ok(Ok(t)) => format!("ok:{t}"),
+        Ok(Err(_)) => "ERR".to_string(),
+        Err(_) => "PANIC".to_string(),
+    };
+    let want = tok(guarded(|| run_pipeline(&Pipeline::default(), 1, &data, Mode::Seq)));
+    let c = MetricsCollector::new();
+    match how {
+        "overflow" => {
+            c.set_counter("c", u64::MAX);
+            let _ = guarded(|| c.increment_counter("c", 1));
+        }
+        "usermetric" => {
+            let mut h = c.clone();
+            h.register(Box::new(Panicky));
+            let _ = guarded(|| c.snapshot());
+        }
+        _ => c.set_counter("c", 1),
+    }
+    let p = Pipeline::default();
+    p.set_metrics(c);
+    let got = tok(guarded(|| run_pipeline(&p, 1, &data, Mode::Seq)));
+    let i = cx.case(format!("MPOISON how={how} want={}", want.trim_start_matches("ok:")), format!("res={got}"), how != "none");
+    cx.count(&format!("mpoison:{how}"));
+    if got != want {
+        cx.oracle_fail(i, "poisoned-collector-changed-result", format!("pipeline without collector: {want}; with a collector that had a panic inside a critical section ({how}): {got}"));
+    }
+}
+
+// ---------------------------------------------------------------------------------------------
+// lock sites of src/metrics.rs (source scan): the scheduler only sees locks that have a yield point
+// ---------------------------------------------------------------------------------------------
+
+fn repo_metrics_rs() -> Option<String> {
+    let manifest = std::fs::read_to_string(concat!(env!("CARGO_MANIFEST_DIR"), "/Cargo.toml")).ok()?;
+    let line = manifest.lines().find(|l| l.trim_start().starts_with("ironbeam"))?;
+    let i = line.find("path")?;
+    let rest = &line[i..];
+    let q1 = rest.find('"')?;
+    let q2 = rest[q1 + 1..].find('"')?;
+    let path = &rest[q1 + 1..q1 + 1 + q2];
+    std::fs::read_to_string(format!("{path}/src/metrics.rs")).ok()
+}
+
+/// `LOCKSITES`: every `.lock()` of src/metrics.rs, per method, and how many of them are NOT immediately
+/// preceded by a `verif_hooks::yield_point("metrics:<method>:…")` (such a lock would be invisible to the
+/// cooperative scheduler, so the lock-granular enumeration would silently stop being exhaustive).
+fn lock_sites(cx: &mut Ctx) {
+    let Some(src) = repo_metrics_rs() else {
+        cx.notes.push("C16: src/metrics.rs not readable from the harness; LOCKSITES skipped".into());
+        return;
+    };
+    let mut per: BTreeMap<String, u32> = BTreeMap::new();
+    let mut uncovered = vec![];
+    let mut cur = String::new();
+    let lines: Vec<&str> = src.lines().collect();
+    for (n, l) in lines.iter().enumerate() {
+        let t = l.trim_start();
+        if t.starts_with("//") {
+            continue;
+        }
+        if let Some(i) = t.find("fn ") {
+            if t.starts_with("pub fn ") || t.starts_with("fn ") || t.starts_with("pub(crate) fn ") {
+                cur = t[i + 3..].chars().take_while(|c| c.is_alphanumeric() || *c == '_').collect();
+            }
+        }
+        if t.contains(".lock()") || t.contains(".try_lock()") {
+            *per.entry(cur.clone()).or_insert(0) += 1;
+            let prev = lines[..n].iter().rev().map(|x| x.trim()).find(|x| !x.is_empty() && !x.starts_with("#[cfg")).unwrap_or("");
+            if !prev.contains(&format!("yield_point(\"metrics:{cur}:")) {
+                uncovered.push(format!("{cur}@line{}", n + 1));
+            }
+        }
+    }
+    let real = format!(
+        "sites={} uncovered={}",
+        join_or(per.iter().map(|(k, v)| format!("{k}:{v}")).collect(), ","),
+        uncovered.len()
+    );
+    let i = cx.case("LOCKSITES".into(), real, false);
+    cx.count_n("locksites:locks-in-metrics.rs", per.values().map(|v| u64::from(*v)).sum());
+    if !uncovered.is_empty() {
+        cx.oracle_fail(i, "lock-without-yield-point", format!("lock acquisitions without a preceding yield point: {uncovered:?}"));
+    }
+}
+
+// ---------------------------------------------------------------------------------------------
+// the run
+// ---------------------------------------------------------------------------------------------
+
+const A4: [Op; 4] = [Op::Inc("a", 1), Op::Inc("a", 2), Op::Set("a", 5), Op::RegC("a", 7)];
+const A7: [Op; 7] =
+    [Op::Inc("a", 1), Op::Inc("a", 2), Op::Set("a", 5), Op::RegC("a", 7), Op::RegG("a", 3), Op::Inc("b", 4), Op::St];
+
+fn random_op(cx: &mut Ctx) -> Op {
+    let names = ["a", "b", "execution_time_ms"];
+    let nn = if cx.rng.chance(1, 8) { 3 } else { 2 };
+    let k = names[cx.rng.below(nn)];
+    match cx.rng.below(14) {
+        0..=4 => Op::Inc(k, 1 + cx.rng.below(9) as u64),
+        5 | 6 => Op::Set(k, cx.rng.below(50) as u64),
+        7 | 8 => Op::RegC(k, cx.rng.below(50) as u64),
+        9 => Op::RegG(k, cx.rng.below(9) as u64),
+        10 => Op::St,
+        11 => Op::En,
+        12 => *cx.rng.pick(&[Op::El, Op::Js]),
+        _ => Op::Sn,
+    }
+}
 
 pub fn run(cx: &mut Ctx) {
-    cx.notes.push("C16: harness not implemented".to_string());
+    let init10: Init = vec![("a", Val::C(10))];
+    // the exhaustive blocks do not depend on the seed: the search tier keeps the quick shapes and
+    // spends its larger budget on the random blocks
+    let quick = cx.tier != crate::ctx::Tier::Thorough;
+    let cap = if quick { 4000 } else { 400_000 };
+
+    lock_sites(cx);
+    // a collector whose mutex was poisoned by a panic inside one of its own critical sections must
+    // still not change (here: abort) the pipeline it is attached to
+    for how in ["overflow", "usermetric", "none"] {
+        poison_case(cx, how);
+    }
+
+    // (1) corpus: design witness of defect #14 (two threads, one increment each, read-read-write-write)
+    {
+        let prog: Prog = vec![vec![Op::Inc("a", 1)], vec![Op::Inc("a", 1)]];
+        let orc = prog_oracle(&init10, &prog);
+        for sched in [vec![0, 1, 0, 1], vec![0, 0, 1, 1], vec![1, 0], vec![]] {
+            let ex = execute(&init10, &prog, Policy::Prefix(&sched));
+            emit(cx, &init10, &prog, &sched, &ex, &orc, "corpus");
+        }
+        let prog3: Prog = vec![vec![Op::Inc("a", 1), Op::Inc("a", 2)], vec![Op::Set("a", 5)], vec![Op::Inc("a", 4)]];
+        let orc3 = prog_oracle(&init10, &prog3);
+        for sched in [vec![0, 2, 0, 2, 1, 0, 0], vec![2, 1, 0, 0, 2]] {
+            let ex = execute(&init10, &prog3, Policy::Prefix(&sched));
+            emit(cx, &init10, &prog3, &sched, &ex, &orc3, "corpus");
+        }
+    }
+
+    let t_start = std::time::Instant::now();
+    let lap = |what: &str| {
+        if std::env::var("IBH_TIMING").is_ok() {
+            eprintln!("[c16] {what}: {:.2}s", t_start.elapsed().as_secs_f64());
+        }
+    };
+    // (2) exhaustive small scope: every program of the shape over the alphabet x EVERY complete schedule
+    let shapes: Vec<Vec<usize>> = if quick {
+        vec![vec![1, 1], vec![2, 1], vec![1, 2], vec![2, 2], vec![1, 1, 1], vec![2, 1, 1]]
+    } else {
+        vec![
+            vec![1, 1], vec![2, 1], vec![1, 2], vec![2, 2], vec![3, 1], vec![1, 3], vec![3, 2], vec![2, 3], vec![3, 3],
+            vec![1, 1, 1], vec![2, 1, 1], vec![1, 2, 1], vec![1, 1, 2], vec![2, 2, 1], vec![2, 1, 2], vec![1, 2, 2], vec![2, 2, 2],
+        ]
+    };
+    let mut total_scheds = 0usize;
+    let mut total_progs = 0usize;
+    let mut truncated = 0usize;
+    for shape in &shapes {
+        for prog in all_progs(&A4, shape) {
+            let (r, cut) = explore(cx, &init10, &prog, cap, "exhaustive-A4");
+            total_scheds += r;
+            total_progs += 1;
+            truncated += usize::from(cut);
+        }
+    }
+    cx.exhaustive_blocks.push(format!(
+        "METRICS: init a=10; every program of shapes {shapes:?} (ops per thread) over {{inc a 1, inc a 2, set a 5, register counter a 7}} x every complete lock-granular schedule of the real code: {total_progs} programs, {total_scheds} schedules, {truncated} programs cut off at {cap} schedules"
+    ));
+    lap("A4");
+    // wider alphabet (gauge under the same name, a second name, record_start), absent initial counter
+    let mut s7 = 0usize;
+    let mut p7 = 0usize;
+    let mut t7 = 0usize;
+    let shapes7: Vec<Vec<usize>> = if quick { vec![vec![1, 1], vec![2, 1], vec![1, 1, 1]] } else { vec![vec![1, 1], vec![2, 1], vec![2, 2], vec![1, 1, 1], vec![2, 1, 1]] };
+    for init in [vec![], vec![("a", Val::C(10))], vec![("a", Val::G(2))]] {
+        for shape in &shapes7 {
+            for prog in all_progs(&A7, shape) {
+                let (r, cut) = explore(cx, &init, &prog, cap, "exhaustive-A7");
+                s7 += r;
+                p7 += 1;
+                t7 += usize::from(cut);
+            }
+        }
+    }
+    cx.exhaustive_blocks.push(format!(
+        "METRICS: init in {{none, a=counter 10, a=gauge 2}}; shapes {shapes7:?} over {{inc a 1, inc a 2, set a 5, reg counter a 7, reg gauge a 3, inc b 4, record_start}} x every complete schedule: {p7} programs, {s7} schedules, {t7} cut off"
+    ));
+    lap("A7");
+    // increments with distinct power-of-two amounts: 2 and 3 threads x up to 3 increments, every schedule
+    let mut sb = 0usize;
+    let mut tb = 0usize;
+    let bw: Vec<(usize, usize)> = vec![(2, 1), (2, 2), (2, 3), (3, 1), (3, 2), (3, 3)];
+    for (t, per) in &bw {
+        for init in [vec![("a", Val::C(10))], vec![]] {
+            let (r, cut) = explore(cx, &init, &binary_weight_prog(*t, *per), cap, "exhaustive-binary-weights");
+            sb += r;
+            tb += usize::from(cut);
+        }
+    }
+    cx.exhaustive_blocks.push(format!(
+        "METRICS: (threads, increments per thread) in {bw:?}, amounts distinct powers of two, init a=10 and absent, every complete schedule: {sb} schedules, {tb} cut off at {cap}"
+    ));
+
+    lap("binary");
+    // (3) random programs, random schedules; plus arbitrary (possibly incomplete / over-long) forced schedules
+    let rounds = cx.budget(250, 6000);
+    for _ in 0..rounds {
+        let nthreads = 2 + cx.rng.below(3);
+        let prog: Prog = (0..nthreads).map(|_| { let l = cx.rng.below(5); (0..l).map(|_| random_op(cx)).collect() }).collect();
+        let init: Init = match cx.rng.below(4) {
+            0 => vec![],
+            1 => vec![("a", Val::C(cx.rng.below(100) as u64))],
+            2 => vec![("a", Val::C(cx.rng.below(100) as u64)), ("b", Val::C(3))],
+            _ => vec![("a", Val::G(1)), ("b", Val::C(cx.rng.below(10) as u64))],
+        };
+        let orc = prog_oracle(&init, &prog);
+        for _ in 0..3 {
+            let ex = {
+                let mut r = cx.rng.clone();
+                let ex = execute(&init, &prog, Policy::Random(&mut r));
+                cx.rng = r;
+                ex
+            };
+            let sched = ex.taken.clone();
+            emit(cx, &init, &prog, &sched, &ex, &orc, "random-schedule");
+        }
+        let glen = cx.rng.below(12);
+        let garbage: Vec<usize> = (0..glen).map(|_| cx.rng.below(nthreads + 1)).collect();
+        let ex = execute(&init, &prog, Policy::Prefix(&garbage));
+        emit(cx, &init, &prog, &garbage, &ex, &orc, "arbitrary-forced-schedule");
+    }
+    lap("random");
+    // 16 threads under the scheduler, increments only, random schedules
+    for _ in 0..cx.budget(10, 200) {
+        let per = 1 + cx.rng.below(4);
+        let prog: Prog = (0..16).map(|t| (0..per).map(|_| Op::Inc("a", 1 + (t as u64 % 5))).collect()).collect();
+        let init: Init = vec![("a", Val::C(cx.rng.below(1000) as u64))];
+        let orc = ProgOracle { serial: HashSet::new(), inc_only: inc_only_expectation(&init, &prog).map(|m| join_or(m.iter().map(|(k, n)| format!("{k}:c{n}")).collect(), ",")), names: written_names(&init, &prog) };
+        let ex = {
+            let mut r = cx.rng.clone();
+            let ex = execute(&init, &prog, Policy::Random(&mut r));
+            cx.rng = r;
+            ex
+        };
+        // serial set of an increment-only program is the single expected outcome
+        let orc = ProgOracle { serial: orc.inc_only.iter().cloned().collect(), ..orc };
+        let sched = ex.taken.clone();
+        emit(cx, &init, &prog, &sched, &ex, &orc, "random-schedule-16-threads");
+    }
+
+    lap("16 threads");
+    // (4) free-running stress (no scheduler): 16 threads x 20 000 increments and smaller shapes
+    let reps = cx.budget(1, 3);
+    for r in 0..reps {
+        stress(cx, Some(5), 16, 20_000, &[1], false);
+        stress(cx, None, 16, 20_000, &[1, 2, 3], r % 2 == 0);
+        stress(cx, Some(1000), 2, 50_000, &[1, 7], false);
+        stress(cx, Some(0), 4, 20_000, &[3], true);
+        stress(cx, Some(0), 8, 5_000, &[1, 2], true);
+    }
+
+    lap("stress");
+    // (5) real pipelines with and without a collector
+    let prounds = cx.budget(6, 60);
+    for round in 0..prounds {
+        for which in 0..6 {
+            let len = *cx.rng.pick(&[0usize, 1, 2, 17, 60, 200]);
+            let data: Vec<i64> = (0..len).map(|_| cx.rng.range(-20, 40)).collect();
+            let mode = if cx.rng.chance(1, 2) { Mode::Seq } else { Mode::Par(1 + cx.rng.below(7)) };
+            let npre = cx.rng.below(4);
+            let pre: Vec<Op> = (0..npre)
+                .map(|_| match cx.rng.below(4) {
+                    0 => Op::RegC("rows", cx.rng.below(100) as u64),
+                    1 => Op::RegG("ratio", cx.rng.below(9) as u64),
+                    2 => Op::Inc("calls", 1 + cx.rng.below(5) as u64),
+                    _ => Op::Set("execution_time_ms", 9),
+                })
+                .collect();
+            let runs: Vec<&str> = match (round + which) % 6 {
+                0 | 1 => vec!["ok"],
+                2 => vec!["ok", "ok"],
+                3 => vec!["pe"],
+                4 => vec!["ok", "pe"],
+                _ => vec!["ee", "ok"],
+            };
+            let hammer = (round + which) % 3 == 0;
+            mrun(cx, which, &data, mode, &pre, &runs, hammer);
+        }
+    }
+    lap("pipelines");
+    for mode in [Mode::Seq, Mode::Par(2)] {
+        mrun(cx, 6, &[1, 2, 3], mode, &[], &["ok"], false);
+        mrun(cx, 6, &[1, 2], mode, &[Op::RegC("rows", 2)], &["pe", "ok"], false);
+    }
+    for runs in [vec!["pe"], vec!["ee"], vec!["pe", "ee", "ok"], vec!["ok", "ee", "pe"]] {
+        mrun(cx, 0, &[1, 2, 3, 4, 5], Mode::Seq, &[Op::RegC("rows", 1)], &runs, false);
+    }
 }
